@@ -7,10 +7,10 @@ TARGETS = ['MindsVerif.Props.C10']
 THEOREMS = ['MindsVerif.Props.C10.' + n for n in (
     'C10_case_insensitive', 'C10_catalog_names_dicts', 'C10_catalog_case', 'C10_catalog_none',
     'C10_catalog_legacy_list', 'C10_resolvers', 'C10_resolvers_same', 'C10_regression_1', 'C10_regression_2',
-    'C10_old_resolver_partial', 'C10_resolvers_catalog', 'C10_regression_6', 'C10_catalog_default_case', 'C10_partial_stripped', 'C10_stripped_exact', 'C10_partial_pushdown',
+    'C10_old_resolver_partial', 'C10_resolvers_catalog', 'C10_regression_6', 'C10_catalog_default_case', 'C10_partial_stripped', 'C10_partial_stripped_today', 'C10_stripped_exact', 'C10_partial_pushdown',
     'C10_witness_3', 'C10_pushdown_full_false', 'C10_witness_5', 'C10_stripped_full_false',
     'C10_model_version', 'C10_model_noversion', 'C10_model_step_simple', 'C10_model_case',
-    'C10_model_join', 'C10_regression_4', 'C10_main')]
+    'C10_model_join', 'C10_model_join_project', 'C10_model_join_project_default', 'C10_regression_4', 'C10_main')]
 ASSUME = [
     'QueryPlanner.__init__, resolve_database_table, PlanJoinTablesQuery.resolve_table/process_table, get_predictor, '
     'get_query_info, check_single_integration, prepare_integration_select are hand-modelled (Model/Route.lean); '
@@ -375,10 +375,11 @@ def run(chk):
             continue
         node = R.abstract(ast)
         if isinstance(ast, (A.Select, A.Union, A.Intersect, A.Except)):
-            lines.append(json.dumps(dict(op='plan', cat=c.model(), ctes=[R.enc(x) for x in R.cte_names(ast)], node=node)))
+            names = [R.enc(x) for x in R.local_names(ast)]
+            lines.append(json.dumps(dict(op='plan', cat=c.model(), ctes=[R.enc(x) for x in R.cte_names(ast)], names=names, node=node)))
             metas.append(('plan', c, (sql, ast)))
         for db in ('int1', 'mindsdb'):
-            lines.append(json.dumps(dict(op='strip', db=R.enc(db), par='n', slot='a', node=node)))
+            lines.append(json.dumps(dict(op='strip', db=R.enc(db), par='n', slot='a', names=[R.enc(x) for x in R.local_names(ast)], node=node)))
             metas.append(('strip', db, (sql, ast)))
         fs, status = probe_case(c, sql, deep=True)
         bump('status/' + status.split(':')[0])
@@ -395,6 +396,7 @@ def run(chk):
     if outs is not None:
         res = {k: [0, 0, None] for k in ('cat', 'route', 'plan', 'strip')}
         skipped_big = []
+        variants = R.Variants()
         for (op, c, arg), o in zip(metas, outs):
             r = res[op]
             r[0] += 1
@@ -417,21 +419,10 @@ def run(chk):
                 real = R.real_plan_top(c, ast)
                 items = R.real_visit(c, copy.deepcopy(ast))
                 mitems = [[i[0]] + ([[R.dec(p) for p in i[1]]] if i[0] == 't' else []) for i in o['items']]
-                minfo = o['info']
-                if minfo is not None:
-                    minfo = dict(mdb=minfo['mdb'], ints=sorted(R.dec(x) for x in minfo['ints']), preds=minfo['preds'], udf=minfo['udf'])
                 msingle = None if o['single'] is None else R.dec(o['single'])
                 if items != mitems:
                     why = dict(sql=sql, field='visit-log', impl=items, model=mitems)
-                elif real['info'] != minfo and not isinstance(real['info'], tuple):
-                    why = dict(sql=sql, catalog=c.kwargs(), field='query_info', impl=real['info'], model=minfo)
-                elif real['single'] != msingle and not isinstance(real['single'], tuple):
-                    why = dict(sql=sql, catalog=c.kwargs(), field='check_single_integration', impl=real['single'], model=msingle)
-                elif msingle is not None and real['idents'] != R.model_idents(o['idents']):
-                    why = dict(sql=sql, catalog=c.kwargs(), field='stripped-identifiers', impl=real['idents'],
-                               model=R.model_idents(o['idents']))
-                elif msingle is not None and real.get('steps') != 1:
-                    why = dict(sql=sql, field='steps', impl=real.get('steps'), model=1)
+                variants.plan_case(real, o, dict(sql=sql, catalog=c.kwargs()))
                 bump('plan/%s' % ('pushed' if msingle else 'not-pushed'))
                 if not o['skipLeafOnly']:
                     skipped_big.append(sql)
@@ -439,15 +430,16 @@ def run(chk):
                 sql, ast = arg
                 q = copy.deepcopy(ast)
                 R.planner_for(R.Cat(None, None, None, None)).prepare_integration_select(c, q)
-                real = R.idents_of(q)
-                mod = R.model_idents(o['idents'])
-                if real != mod:
-                    why = dict(sql=sql, db=c, field='prepare_integration_select', impl=real, model=mod)
+                variants.strip_case(R.idents_of(q), o, dict(sql=sql, db=c))
             if why is not None:
                 r[1] += 1
                 r[2] = r[2] or why
         for k, (n, d, first) in res.items():
             chk.corr_result('route-' + k, n, d, first, dist if k == 'plan' else None)
+        okv, which, detail = variants.verdict()
+        chk.oblige('corr:route-variant', 'correspondence', okv, detail)
+        chk.notes.append('planner follows model variant: %s' % which)
+        dist['model-variant'] = which
         # hypothesis of C10_partial_pushdown: whatever the live walker skips is a name or a constant
         chk.oblige('hyp:skipLeafOnly', 'hypothesis-check', not skipped_big,
                    'a generated tree holds a non-atomic node in a slot the walker skips: %s' % skipped_big[:2])
